@@ -6,6 +6,99 @@ import json
 import os
 
 
+def scan_main_module(src, config_keys):
+    """AST facts about bits/__main__.py (pure function of the source text, also used by harness/c20.py):
+    reads  : [(function, expression)] every direct read of a configurable option from the argparse namespace
+             (`args.<key>`, getattr(args, "<key>"...), vars(args)["<key>"], vars(args).get("<key>")) -- the generic
+             plumbing Config( **vars(args)) / getattr(args, option + "__explicit", False) is not such a read;
+    calls  : [(subcommand, branch path, function, format expression)] every read_bytes / write_bytes call in main(),
+             with the subcommand of the enclosing `args.subcommand == ...` branch ("" = base command), the other
+             enclosing conditions, and the source text of its input_format= / output_format= argument."""
+    import ast
+    tree = ast.parse(src)
+    reads, calls = [], []
+
+    def is_args(n):
+        return isinstance(n, ast.Name) and n.id == "args"
+
+    def is_vars_args(n):
+        return isinstance(n, ast.Call) and isinstance(n.func, ast.Name) and n.func.id == "vars" and len(n.args) == 1 \
+            and is_args(n.args[0])
+
+    def const_key(n):
+        return isinstance(n, ast.Constant) and isinstance(n.value, str) and n.value in config_keys
+
+    for fn in [n for n in ast.walk(tree) if isinstance(n, (ast.FunctionDef, ast.AsyncFunctionDef))]:
+        for n in ast.walk(fn):
+            if isinstance(n, ast.Attribute) and is_args(n.value) and n.attr in config_keys:
+                reads.append((fn.name, ast.unparse(n)))
+            elif isinstance(n, ast.Call) and isinstance(n.func, ast.Name) and n.func.id == "getattr" and len(n.args) >= 2 \
+                    and is_args(n.args[0]) and const_key(n.args[1]):
+                reads.append((fn.name, ast.unparse(n)))
+            elif isinstance(n, ast.Subscript) and is_vars_args(n.value) and const_key(n.slice):
+                reads.append((fn.name, ast.unparse(n)))
+            elif isinstance(n, ast.Call) and isinstance(n.func, ast.Attribute) and n.func.attr == "get" \
+                    and is_vars_args(n.func.value) and n.args and const_key(n.args[0]):
+                reads.append((fn.name, ast.unparse(n)))
+    mains = [n for n in tree.body if isinstance(n, ast.FunctionDef) and n.name == "main"]
+    assert len(mains) == 1, "expected exactly one main()"
+
+    def subcommand_of(test):
+        """'' for `not args.subcommand`, 'x' for `args.subcommand == 'x'`, else None"""
+        if isinstance(test, ast.UnaryOp) and isinstance(test.op, ast.Not) and ast.unparse(test.operand) == "args.subcommand":
+            return ""
+        if isinstance(test, ast.Compare) and ast.unparse(test.left) == "args.subcommand" and len(test.ops) == 1 \
+                and isinstance(test.ops[0], ast.Eq) and isinstance(test.comparators[0], ast.Constant):
+            return test.comparators[0].value
+        return None
+
+    def io_call(n):
+        if not isinstance(n, ast.Call):
+            return None
+        name = n.func.attr if isinstance(n.func, ast.Attribute) else (n.func.id if isinstance(n.func, ast.Name) else None)
+        if name not in ("read_bytes", "write_bytes"):
+            return None
+        kw = "input_format" if name == "read_bytes" else "output_format"
+        pos = 1 if name == "read_bytes" else 2
+        for k in n.keywords:
+            if k.arg == kw:
+                return name, ast.unparse(k.value)
+            if k.arg is None:
+                return name, "**" + ast.unparse(k.value)
+        if len(n.args) > pos:
+            return name, ast.unparse(n.args[pos])
+        return name, "<default>"
+
+    def visit(stmts, sub, path):
+        for st in stmts:
+            if isinstance(st, ast.If):
+                s2 = subcommand_of(st.test)
+                cond = ast.unparse(st.test)
+                if s2 is not None and sub is None:
+                    visit(st.body, s2, path)
+                    visit(st.orelse, sub, path)
+                else:
+                    for n in ast.walk(st.test):
+                        c = io_call(n)
+                        if c:
+                            calls.append((sub, path, c[0], c[1]))
+                    visit(st.body, sub, path + [cond])
+                    visit(st.orelse, sub, path + ["not (" + cond + ")"])
+            elif isinstance(st, (ast.For, ast.While, ast.With, ast.Try)):
+                for field in ("body", "orelse", "finalbody"):
+                    visit(getattr(st, field, []) or [], sub, path)
+                for h in getattr(st, "handlers", []) or []:
+                    visit(h.body, sub, path)
+            else:
+                for n in ast.walk(st):
+                    c = io_call(n)
+                    if c:
+                        calls.append((sub, path, c[0], c[1]))
+
+    visit(mains[0].body, None, [])
+    return reads, [("<none>" if s is None else s, " & ".join(p), f, e) for (s, p, f, e) in calls]
+
+
 def register(gt):
     def pyval(v):
         if v is None:
@@ -98,6 +191,16 @@ def register(gt):
             ident = "sub_" + "".join(ch if ch.isalnum() else "_" for ch in name)
             out += "Definition %s : parser :=\n%s.\n" % (ident, render_parser(name, acts))
             names.append((name, ident))
+        import inspect
+        reads, calls = scan_main_module(inspect.getsource(m), set(vars(cfg.Config())))
+        sb = gt.coq_string_bytes
+        out += "(* direct reads of a configurable option from the argparse namespace in bits/__main__.py: (function, expression) *)\n"
+        out += "Definition args_config_reads : list (bytes * bytes) :=\n  %s.\n" % gt.coq_list(
+            "(%s, %s)" % (sb(f), sb(e)) for f, e in reads)
+        out += "(* the read_bytes / write_bytes calls of main(): (subcommand, enclosing conditions, function, format argument) *)\n"
+        out += "Definition io_calls : list (bytes * bytes * bytes * bytes) :=\n  [\n%s\n  ].\n" % ";\n".join(
+            "    (* %s | %s | %s | %s *)\n    (%s, %s, %s, %s)" % (
+                su, pa.replace("*", "_"), f, e.replace("*", "_"), sb(su), sb(pa), sb(f), sb(e)) for su, pa, f, e in calls)
         out += "Definition table : cli_table :=\n  mkTable base_parser %s\n  %s.\n" % (
             gt.coq_string_bytes(sub.dest),
             gt.coq_list("(%s, %s)" % (gt.coq_string_bytes(n), i) for n, i in names))
